@@ -171,12 +171,12 @@ class Project:
 def parse_obs(line):
     """R <id> <verdict> [T trace] [N choices] F files U touched [C runs | M marks]  -> dict"""
     t = line.split(" ")
-    o = {"raw": line, "id": t[1], "verdict": t[2], "T": "", "N": "", "F": {}, "U": [], "C": [], "M": {}}
+    o = {"raw": line, "id": t[1], "verdict": t[2], "T": "", "N": "", "F": {}, "U": [], "C": [], "M": {}, "K": ""}
     i = 3
     key = None
     while i < len(t):
-        if t[i] in ("T", "N", "F", "U", "C", "M"):
-            key = t[i]; val = t[i + 1] if i + 1 < len(t) and t[i + 1] not in ("T", "N", "F", "U", "C", "M") else ""
+        if t[i] in ("T", "N", "F", "U", "C", "M", "K"):
+            key = t[i]; val = t[i + 1] if i + 1 < len(t) and t[i + 1] not in ("T", "N", "F", "U", "C", "M", "K") else ""
             if key == "F":
                 for e in filter(None, val.split(";")):
                     k, v = e.split("=", 1); o["F"][unhx(k).decode("utf-8", "replace")] = (None if v == "/" else unhx(v))
